@@ -18,8 +18,9 @@ EXPLANATION = ("Decided clauses: the JVM primitive table (Z,B,C,S,I,J,F,D,V -> k
                "none); the guards of the signature splitter (leading '(', last ')', non-empty return type, ';'-terminated object types, all "
                "slicing through get()); assembly (parameters = non-empty tokens converted in order, dropped if unconvertible; return type "
                "mandatory) and format_signature ('(' + join(\", \") + ')' and ': ' + ret unless empty or void); mapper and cache copies "
-               "are alpha-equivalent modulo receiver. slice bounds are byte offsets only (no item counts). NOT decided: that the index bookkeeping of the tokenizer loop "
-               "(first_idx / last_idx) cuts a descriptor exactly at type boundaries for every input (runtime index arithmetic over a recursive language).")
+               "are alpha-equivalent modulo receiver. slice bounds are byte offsets only (no item counts). the tokenizer's per-iteration bookkeeping (token = slice from the token start to the "
+               "terminator inclusive, start := terminator + 1, '[' keeps the start, object scan stops at the first ';') equals the reference. "
+               "NOT decided: the inductive argument that this bookkeeping cuts every valid descriptor at type boundaries (paper argument over the per-iteration clauses).")
 RULE_TEXT = R1.RULE_TEXT
 TRUSTED = R1.TRUSTED
 
@@ -263,6 +264,137 @@ def check_byte_offsets(fx, rep, rule):
     rep.floor(rule + "/byte-offset", n_b, 4, "slice bounds in the descriptor splitter")
 
 
+def check_tokenizer(fx, rep, rule):
+    """C16.6: per-iteration bookkeeping of the descriptor tokenizer: a type token is the slice from `first_idx` (start of the
+    token, array brackets included) to the terminating character inclusive; `first_idx` then moves just past it; '[' alone
+    consumes nothing; unknown characters are skipped. The object-type scan records the index of every character it consumes
+    and stops at the first ';'."""
+    p = A.func(fx, "java", "parse_obfuscated_bytecode_signature")
+    prim = A.func(fx, "java", "java_base_types")
+    if len(p) != 1 or len(prim) != 1:
+        return
+    b = fx.bodies[p[0]]
+    sy = S.Sym(fx, opaque=lambda q: q in prim)
+    try:
+        res = sy.eval_body(b)
+    except S.Undecidable as e:
+        rep.undecidable(rule, "%s/tokenizer/shape" % rule, loc=F.loc(e.node) if isinstance(e.node, dict) else "", construct=e.msg)
+        return
+    loops = sorted(sy.loops.values(), key=lambda L: L["index"])
+    if len(loops) != 2:
+        rep.undecidable(rule, "%s/tokenizer/shape" % rule, loc=F.short_file(b["sp"]), construct="%d loops (expected the token loop and the object-type scan)" % len(loops))
+        return
+    outer, inner = loops
+    sig = ("in", b["params"][0]["pat"]["name"])
+    sp_ = call("core::str::strip_prefix", sig, ("lit", "char", "("))
+    rs = call("core::str::rsplit_once", mk_payload(sp_, "Some", "0"), ("lit", "char", ")"))
+    ptypes = mk_field(mk_payload(rs, "Some", "0"), "0")
+    PT = S.short_path(prim[0])
+    # role names of the loop-carried variables from the effects
+    names_first = {e[1][1] for st, o in outer["paths"] for e in st.effects if e[0] == "assign" and e[1][0] == "place"}
+    names_last = {e[1][1] for st, o in inner["paths"] for e in st.effects if e[0] == "assign" and e[1][0] == "place"}
+    pushes = {e[2][0][1] for st, o in outer["paths"] for e in st.effects if e[0] == "call" and e[1].endswith("Vec::push") and e[2][0][0] == "place"}
+    if len(names_first) != 1 or len(names_last) != 1 or len(pushes) != 1:
+        rep.undecidable(rule, "%s/tokenizer/state" % rule, loc=F.short_file(b["sp"]),
+                        construct="state variables: token start %s, scan position %s, output %s" % (sorted(names_first), sorted(names_last), sorted(pushes)))
+        return
+    first = ("loop", list(names_first)[0], outer["index"])
+    last = ("loop", list(names_last)[0], inner["index"])
+    out = ("place", list(pushes)[0], ())
+    idx, tok = mk_field(R.ELEM, "0"), mk_field(R.ELEM, "1")
+
+    def get(a, b_):
+        return call("core::str::get", ptypes, ("adt", "Range", "Range", (("start", a), ("end", S.lin_norm([(b_, 1)], 1)))))
+
+    def ref(o):
+        if not o(("is", R.NEXT, "Some")):
+            return ("end", ())
+        if o(("eq", tok, ("lit", "char", "L"))):
+            ty = get(first, last)
+            if not o(("is", ty, "Some")):
+                return ("ret", NONE, ())
+            t = mk_payload(ty, "Some", "0")
+            if o(("empty", t)) or not o(("bool", call("core::str::ends_with", t, ("array", (("lit", "char", ";"),))))):
+                return ("ret", NONE, ())
+            return ("cont", (("push", out, t), ("assign", first[1], S.lin_norm([(last, 1)], 1))))
+        if o(("eq", tok, ("lit", "char", "["))):
+            return ("cont", ())
+        if o(("is", call(PT, tok), "Some")):
+            ty = get(first, idx)
+            if not o(("is", ty, "Some")):
+                return ("ret", NONE, ())
+            return ("cont", (("push", out, mk_payload(ty, "Some", "0")), ("assign", first[1], S.lin_norm([(idx, 1)], 1))))
+        return ("cont", ())
+
+    def effs(st):
+        o_ = []
+        for e in st.effects:
+            e = fc.rewrite(e, R.rw_iter)
+            if e[0] == "call" and e[1].endswith("Vec::push"):
+                o_.append(("push", e[2][0], e[2][1]))
+            elif e[0] == "assign" and e[1][0] == "place":
+                o_.append(("assign", e[1][1], e[2]))
+            elif e[0] == "call" and R.is_next(e[1]) or e[0] in ("loopsum", "inloop"):
+                continue
+            else:
+                o_.append(("other", e))
+        return tuple(o_)
+
+    def outcome(st, o_):
+        k, v = o_
+        if k == S.BRK:
+            return ("end", effs(st))
+        if k == S.RET:
+            return ("ret", fc.rewrite(v, R.rw_iter), effs(st))
+        return ("cont", effs(st))
+    base = len(outer["entry"].conds)
+    bad, n = fc.compare_paths(outer["paths"], ref, outcome, rw=R.rw_iter, base=base)
+    if not bad:
+        rep.ok(rule, "%s/tokenizer/token-loop" % rule, loc=F.loc(outer["node"]),
+               found="%d canonical paths: token = descriptor[token_start ..= terminator]; token_start := terminator + 1; '[' keeps token_start; unknown characters skipped" % len(outer["paths"]))
+    else:
+        for conds, io, ro, comp in bad[:3]:
+            rep.violation(rule, "%s/tokenizer/token-loop/%s" % (rule, R1.short_hash(S.cstr(conds) + repr(io))), loc=F.loc(outer["node"]),
+                          found="when %s: %s" % (S.cstr(tuple((fc.rewrite(a, R.rw_iter), p_) for a, p_ in conds))[-400:], S.tstr(io)[:400]), expected=S.tstr(ro)[:400])
+    # inner scan: records every consumed index, stops at ';'; driven by the same char_indices iterator; starts at the index of 'L'
+    ib = len(inner["entry"].conds)
+    i_idx, i_c = mk_field(R.ELEM, "0"), mk_field(R.ELEM, "1")
+
+    def iref(o):
+        if not o(("is", R.NEXT, "Some")):
+            return ("end", ())
+        if o(("eq", i_c, ("lit", "char", ";"))):
+            return ("end", (("assign", last[1], i_idx),))
+        return ("cont", (("assign", last[1], i_idx),))
+    bad2, n2 = fc.compare_paths(inner["paths"], iref, outcome, rw=R.rw_iter, base=ib)
+    # initial value of the scan position = index of the 'L'
+    init_ok = False
+    for n_ in F.walk(outer["node"]["body"]):
+        if n_.get("k") == "Block":
+            for s_ in n_["stmts"]:
+                if s_["k"] == "Let" and s_["pat"]["k"] == "Bind" and s_["pat"]["name"] == last[1] and s_.get("init") is not None:
+                    i_ = F.strip(s_["init"])
+                    init_ok = i_.get("k") == "Var" and i_.get("ty") == "usize"
+    drv = None
+    for n_ in F.walk(inner["node"]["body"]):
+        if F.is_call(n_, "std::iter::Iterator::next"):
+            v = F.strip(n_["args"][0])
+            drv = inner["pre"].env.get(v["id"]) if v.get("k") in ("Var", "Upvar") else None
+            break
+    drv_ok = drv is not None and drv[0] == "place" and any(e[0] == "call" and R.is_next(e[1]) and e[2][0] == drv for st, o_ in outer["paths"] for e in st.effects)
+    rep.check(rule, "%s/tokenizer/object-scan" % rule, not bad2 and init_ok and drv_ok, loc=F.loc(inner["node"]),
+              found="scan paths equal reference: %s; starts at the index of 'L': %s; continues the token iterator (by_ref): %s" % (not bad2, init_ok, drv_ok),
+              expected="the scan consumes characters from the same iterator, records each index, and stops at the first ';'")
+    # first_idx starts at 0
+    init0 = False
+    for n_ in F.walk(b["body"]):
+        if n_.get("k") == "Block":
+            for s_ in n_["stmts"]:
+                if s_["k"] == "Let" and s_["pat"]["k"] == "Bind" and s_["pat"]["name"] == first[1] and s_.get("init") is not None:
+                    init0 = C.int_lit(s_["init"]) == 0
+    rep.check(rule, "%s/tokenizer/start-at-zero" % rule, init0, loc=F.short_file(b["sp"]), found="token start initialised to 0: %s" % init0, expected="0", nontrivial=False)
+
+
 def check_assembly(fx, rep, rule, name, conv_name):
     p = A.one(rep, rule, "java::" + name, A.func(fx, "java", name))
     if not p:
@@ -368,6 +500,7 @@ def run(ctx, rep):
         check_type_renderer(fx, rep, "C16.2", "byte_code_type_to_java_type_cache", rc[0], prim)
     check_splitter_guards(fx, rep, "C16.3")
     check_byte_offsets(fx, rep, "C16.3")
+    check_tokenizer(fx, rep, "C16.6")
     check_assembly(fx, rep, "C16.4", "deobfuscate_bytecode_signature", "byte_code_type_to_java_type")
     check_assembly(fx, rep, "C16.4", "deobfuscate_bytecode_signature_cache", "byte_code_type_to_java_type_cache")
     check_format_signature(fx, rep, "C16.4")
